@@ -8,15 +8,27 @@ partial def readItem : Sexp → Option Item
   | .list (.atom "s" :: cs) => (cs.mapM readItem).map .scope
   | .list (.atom "b" :: cs) => (cs.mapM readItem).map .boundary
   | .list [.atom "t", .atom n] => n.toNat?.map .task
+  -- `(u n)`: the loading resource `n` is read under the ambient boundary: one guard, released when the
+  -- resource delivers = a task with one await point (completed by the event `rN`, see `usesOf`)
+  | .list [.atom "u", .atom _] => some (.task 1)
   | _ => none
 
-def showM (m : M) (from_ : Nat) : String :=
+/-- the resource read by every task-like item, in creation order (`none` for ordinary tasks) -/
+partial def usesOf : Sexp → List (Option Nat)
+  | .list (.atom "s" :: cs) => cs.flatMap usesOf
+  | .list (.atom "b" :: cs) => cs.flatMap usesOf
+  | .list [.atom "t", .atom _] => [none]
+  | .list [.atom "u", .atom n] => [n.toNat?]
+  | _ => []
+
+def showM (m : M) (from_ : Nat) (uses : List (Option Nat) := []) : String :=
   let nb := m.boundaries.length
   let ls := (List.range nb).map fun b =>
     match m.boundaries[b]? with
     | some bd => if scopeAlive m bd.innerScope then (if isLoading m (nb + 1) b then "1" else "0") else "x"
     | none => "?"
-  let ps := (m.polls.drop from_).map fun (t, l) => s!"{t}.{l}"
+  -- a resource read has no body that resumes: only real tasks are logged
+  let ps := ((m.polls.drop from_).filter fun (t, _) => (uses[t]?.getD none).isNone).map fun (t, l) => s!"{t}.{l}"
   let g := if globalLoading m then "1" else "0"
   s!"L={String.join ls} G={g} P=[{",".intercalate ps}]"
 
@@ -25,15 +37,25 @@ def readEv (s : String) : Option Ev :=
   else if s.startsWith "d" then (s.drop 1).toString.toNat?.map .dispose
   else none
 
-def runSuspense (m : M) (evs : List String) (acc : List String) : List String :=
+def runSuspense (uses : List (Option Nat)) (m : M) (evs : List String) (acc : List String) : List String :=
   match evs with
   | [] => acc
   | e :: es =>
+    if e.startsWith "r" then
+      -- resource `n` delivers: every guard taken for it is released (the tasks standing for its reads
+      -- complete, in creation order)
+      match (e.drop 1).toString.toNat? with
+      | none => acc ++ ["bad-op"]
+      | some n =>
+        let ts := (List.range uses.length).filter fun t => uses[t]? == some (some n)
+        let m' := ts.foldl (fun m t => step m (.complete t)) m
+        runSuspense uses m' es (acc ++ [showM m' m.polls.length uses])
+    else
     match readEv e with
     | none => acc ++ ["bad-op"]
     | some ev =>
       let m' := step m ev
-      runSuspense m' es (acc ++ [showM m' m.polls.length])
+      runSuspense uses m' es (acc ++ [showM m' m.polls.length uses])
 
 def showRes (r : Res) (alive : Bool) : String :=
   if !alive then "dead" else
@@ -54,20 +76,49 @@ def runResource (r : Res) (alive : Bool) (evs : List String) (acc : List String)
       let r' := if alive then rstep r ev else r
       runResource r' alive es (acc ++ [showRes r' alive])
 
-/-- `suspense <items> <ev,ev,…>` | `resource <dep0> <ev,ev,…>` -/
+/-- a subscriber of the resource value that reacts to a delivery by writing the dependency (once: only
+when it differs from `c`): the write happens inside the completion; the model runs it right after -/
+def runResourceFb (c : Nat) (r : Res) (alive : Bool) (evs : List String) (acc : List String) : List String :=
+  match evs with
+  | [] => acc
+  | e :: es =>
+    if e == "x" then runResourceFb c r false es (acc ++ [showRes r false]) else
+    let ev : Option REv :=
+      if e.startsWith "w" then (e.drop 1).toString.toNat?.map .write
+      else if e.startsWith "f" then (e.drop 1).toString.toNat?.map .finish else none
+    match ev with
+    | none => acc ++ ["bad-op"]
+    | some ev =>
+      let r' := if alive then rstep r ev else r
+      -- the subscriber runs whenever the value signal is set (a delivery) and, for a write, not at all
+      let delivered := match ev with
+        | .finish k => alive && k = r.started && !r.completedLatest
+        | .write _ => false
+      let r'' := if delivered && r'.dep != c then rstep r' (.write c) else r'
+      runResourceFb c r'' alive es (acc ++ [showRes r'' alive])
+
+/-- `suspense <items> <ev,ev,…>` | `resource <dep0> <ev,ev,…>` | `resourcefb <dep0> <c> <ev,ev,…>` -/
 def handle (line : String) : String :=
   match line.splitOn " " with
   | "resource" :: d :: evs :: [] =>
     match d.toNat? with
     | some d => " | ".intercalate (runResource (Res.init d) true (if evs == "-" then [] else evs.splitOn ",") [showRes (Res.init d) true])
     | none => "bad-op"
+  | "resourcefb" :: d :: c :: evs :: [] =>
+    match d.toNat?, c.toNat? with
+    | some d, some c =>
+      -- at creation nothing is delivered yet: the subscriber sees `None`
+      " | ".intercalate (runResourceFb c (Res.init d) true (if evs == "-" then [] else evs.splitOn ",") [showRes (Res.init d) true])
+    | _, _ => "bad-op"
+  -- D15 witness: no model beyond "the two destructors run once each and nothing stays loading"
+  | ["special", "drop-under-borrow"] => "drops=1,2 | loading=0"
   | "suspense" :: rest =>
     match rest.getLast?, Sexp.parse (" ".intercalate rest.dropLast) with
-    | some evs, some (.list (.atom "L" :: items)) =>
-      match items.mapM readItem with
+    | some evs, some (.list (.atom "L" :: items0)) =>
+      match items0.mapM readItem with
       | some items =>
         let m := buildItems M.init 0 none items
-        " | ".intercalate (runSuspense m (if evs == "-" then [] else evs.splitOn ",") [showM m 0])
+        " | ".intercalate (runSuspense (items0.flatMap usesOf) m (if evs == "-" then [] else evs.splitOn ",") [showM m 0 (items0.flatMap usesOf)])
       | none => "bad-op"
     | _, _ => "bad-op"
   | _ => "bad-op"
